@@ -66,7 +66,7 @@ package nsx
 // the addresses of a Netspoc group only if it was not bound before, and a
 // Netspoc group is bound to only one device group.
 //vc:func (*rulesPair).equalizeGroups$1
-//vc:  assert[C04] at "ga.needed = true" @changedGroupWasFree !ga.needed
+//vc:  assert[C04] at "ga.needed = true"#2 @changedGroupWasFree !ga.needed
 //vc:  assert[C04] at "gb.nameOnDevice = ga.Id" @netspocGroupBoundOnce gb.nameOnDevice == ""
 
 // text handed to the device, a file or a log is never interpreted as a printf format
@@ -132,11 +132,18 @@ package nsx
 // service it defines carries the Netspoc prefix. An object of another name is
 // never read from the manager (see LoadDevice above), so writing it would
 // overwrite an administrator's object of that name as a whole.
+// C04: a service entry of a type the tool does not model would be compared and
+// sent as JSON null ("no change" for different services): a raw file with such
+// an entry is rejected.
+//vc:spec func supportedEntry(t string) bool = t == "IPProtocolServiceEntry" || t == "L4PortSetServiceEntry" || t == "ICMPTypeServiceEntry"
+//vc:spec macro entriesSupported(g *nsxService) bool = forall j int :: { g.ServiceEntries[j] } 0 <= j && j < len(g.ServiceEntries) ==> supportedEntry(g.ServiceEntries[j].ResourceType)
 //vc:func checkRaw
 //vc:  invariant[C07] 1 "for _, p := range c.Policies" @policiesSoFarPrefixed -1 <= rangeindex && (forall k int :: { c.Policies[k] } 0 <= k && k <= rangeindex ==> strings.HasPrefix(c.Policies[k].Id, "Netspoc"))
 //vc:  invariant[C07] 2 "for _, r := range p.Rules" true
 //vc:  invariant[C07] 3 "for _, g := range c.Groups" @groupsSoFarPrefixed -1 <= rangeindex && (forall k int :: { c.Groups[k] } 0 <= k && k <= rangeindex ==> strings.HasPrefix(c.Groups[k].Id, "Netspoc"))
-//vc:  invariant[C07] 4 "for _, g := range c.Services" @servicesSoFarPrefixed -1 <= rangeindex && (forall k int :: { c.Services[k] } 0 <= k && k <= rangeindex ==> strings.HasPrefix(c.Services[k].Id, "Netspoc-raw"))
+//vc:  invariant[C07,C04] 4 "for _, g := range c.Services" @servicesSoFarPrefixed -1 <= rangeindex && (forall k int :: { c.Services[k] } 0 <= k && k <= rangeindex ==> strings.HasPrefix(c.Services[k].Id, "Netspoc-raw") && entriesSupported(c.Services[k]))
+//vc:  invariant[C04] 5 "for _, e := range g.ServiceEntries" @entriesSoFarSupported -1 <= rangeindex && (forall j int :: { g.ServiceEntries[j] } 0 <= j && j <= rangeindex ==> supportedEntry(g.ServiceEntries[j].ResourceType))
+//vc:  ensures[C04] @rawServiceEntriesSupported result == nil ==> (forall k int :: { c.Services[k] } 0 <= k && k < len(c.Services) ==> entriesSupported(c.Services[k]))
 //vc:  ensures[C07] @rawPoliciesPrefixed result == nil ==> (forall k int :: { c.Policies[k] } 0 <= k && k < len(c.Policies) ==> strings.HasPrefix(c.Policies[k].Id, "Netspoc"))
 //vc:  ensures[C07] @rawGroupsPrefixed result == nil ==> (forall k int :: { c.Groups[k] } 0 <= k && k < len(c.Groups) ==> strings.HasPrefix(c.Groups[k].Id, "Netspoc"))
 //vc:  ensures[C07] @rawServicesPrefixed result == nil ==> (forall k int :: { c.Services[k] } 0 <= k && k < len(c.Services) ==> strings.HasPrefix(c.Services[k].Id, "Netspoc-raw"))
